@@ -132,11 +132,12 @@ static unsigned long adler(const unsigned char *d, size_t n) {
 }
 static void logline(const char *fmt, ...) {
     if (log_fd < 0) return;
-    char buf[8192];
+    static __thread char *buf = NULL;
+    if (!buf) buf = malloc(2200000);
     va_list ap; va_start(ap, fmt);
-    int n = vsnprintf(buf, sizeof buf, fmt, ap);
+    int n = vsnprintf(buf, 2200000, fmt, ap);
     va_end(ap);
-    if (n > (int)sizeof buf - 1) n = sizeof buf - 1;
+    if (n > 2199999) n = 2199999;
     if (real_write) real_write(log_fd, buf, n); else syscall(SYS_write, log_fd, buf, n);
 }
 static int is_armer(void) { return (pid_t)syscall(SYS_gettid) == armer_tid; }
@@ -233,7 +234,7 @@ static ssize_t do_write(int fd, const void *buf, size_t n, int kind, off_t off) 
     ssize_t ret; int e;
     if (fail) { ret = -1; e = EIO; if (staging) last_staging_write[0] = 0; }
     else { ret = kind == 0 ? real_write(fd, buf, n) : real_pwrite64(fd, buf, n, off); e = errno; }
-    if (log_data && n <= 65536 && !staging) {
+    if (log_data && n <= 1048576) {
         static const char hx[] = "0123456789abcdef";
         char *h = malloc(2 * n + 1);
         for (size_t i = 0; i < n; i++) { h[2*i] = hx[((const unsigned char *)buf)[i] >> 4]; h[2*i+1] = hx[((const unsigned char *)buf)[i] & 15]; }
